@@ -16,8 +16,9 @@
     `C20_named_unknowns_dependent_env`  every named unknown moves along a kernel vector of `A`; a kernel vector
                                         vanishing on the named ones is 0; #named = defect = n − rank A.
 
-  Svd (`obsSvdCert fixed tol (dec p) p` = the post-decomposition model with the factors `dec p`, under the
-  CERTIFICATE `SvdCert` as everywhere for svd).  EXACTLY what holds (`C20_svd_sound_partial`):
+  Svd (`obsSvdCert fixed tol (dec p) p` = the post-decomposition model with the factors `dec p`, here under
+  `SvdCert`; `Props/C20/SvdDecompose.lean` restates `C20_adjusted_sound_svd` & co. for `dec p` = what
+  `Svd.decompose` returns, with `Unambiguous tol W` in its place).  EXACTLY what holds (`C20_svd_sound_partial`):
     * `Counted`: #flags = defect; a refusal happens only with defect > 0;
     * defect + rank A = n;
     * only `BadRegularization` is thrown; a subset that does NOT resolve the defect is always refused; an
